@@ -14,7 +14,7 @@ from nengo_spa.semantic_pointer import AbsorbingElement, Identity, Zero
 from nengo_spa.typechecks import is_integer, is_iterable, is_number
 from nengo_spa.vector_generation import UnitLengthVectors
 
-valid_sp_regex = re.compile("^[A-Z][_a-zA-Z0-9]*$")
+valid_sp_regex = re.compile(r"^[A-Z][_a-zA-Z0-9]*\Z")
 special_sps = {
     "AbsorbingElement": AbsorbingElement,
     "Identity": Identity,
